@@ -9,8 +9,8 @@ RULE = ('one record per history of {process, process_mut, seek/counter preset, c
         '(DRG: keystream only, whatever the destination held); involution histories re-encrypt the oracle ciphertext; distinct = '
         '(variant, sequence of op kinds with offset/length classes); in-place calls also go through arbitrarily aligned sub-slices of one buffer')
 ASSUMPTIONS = ['same keystream models as C03']
-FLOORS = {'evaluations': 2500, 'distinct': 1500,
 THOROUGH_ROUNDS = 40   # thorough tier: generator passes with derived seeds (runner.gen_rounds)
+FLOORS = {'evaluations': 2500, 'distinct': 1500,
           'coverage': {'pm:off=mid:len>+64rem': 10, 'p:off=63:len=rem': 3, 'seek:off=mid': 10, 'clone:off=mid': 10, 'pms:short-piece-at-unaligned-address': 50,
                        'drg:fb:prior=nonzero:cross': 10, 'drg:fs:prior=nonzero:within': 10}}
 NS = [0, 1, 3, 4, 7, 8, 16, 31, 32, 33, 63, 64, 65, 100, 127, 128, 129, 255]
